@@ -816,6 +816,8 @@ def _native_acc(a, pre):
                            ("zi-lh", zoneinfo.ZoneInfo("Australia/Lord_Howe")), ("p-chicago", p.timezone("America/Chicago"))):
                 same("astimezone-" + nm, lambda v, tz=tz: akey(v.astimezone(tz)))
             same("astimezone-custom", lambda v: fkey(v.astimezone(_HalfYearDst())))
+            same("astimezone-no-argument", lambda v: fkey(v.astimezone()))          # the system's local zone
+            same("astimezone-none", lambda v: fkey(v.astimezone(None)))
         d_, t_ = x.date(), x.time()
         res["date"] = [type(d_).__name__, [d_.year, d_.month, d_.day]]
         res["time"] = [type(t_).__name__, [t_.hour, t_.minute, t_.second, t_.microsecond]]
@@ -1144,7 +1146,22 @@ def _native_k(x, kind):
 
         zr, _k = proj.zref(x.tzinfo)
         return n.replace(tzinfo=zoneinfo.ZoneInfo(zr["n"])) if zr["n"] not in ("", "?") else n
+    if kind == "dateutil":          # ONE dateutil tzinfo object per zone for the whole process (a DST-aware foreign tzinfo)
+        zr, _k = proj.zref(x.tzinfo)
+        if zr["n"] in ("", "?"):
+            return n
+        if zr["n"] not in _DATEUTIL:
+            import dateutil.tz
+
+            _DATEUTIL[zr["n"]] = dateutil.tz.gettz(zr["n"])
+        tz = _DATEUTIL[zr["n"]]
+        if tz is None or n.replace(tzinfo=tz).utcoffset() != x.utcoffset():
+            return n                # dateutil reads its own copy of the tz data: only where it agrees on this value
+        return n.replace(tzinfo=tz)
     raise ValueError(kind)
+
+
+_DATEUTIL = {}
 
 
 def _sm(n, base):
